@@ -153,7 +153,7 @@ def run_local(run, quick):
     combos = [('shared', 'snapshot'), ('plain', 'delete'), ('indep', 'clean')] if quick else \
              [(g, k) for g in ('plain', 'same', 'shared', 'indep', 'mixed') for k in ('snapshot', 'delete', 'clean')]
     for i, (g, kind) in enumerate(combos):
-        for seed in range(run.seed * 100 + 70 + i, run.seed * 100 + 70 + i + (1 if quick else 3)):
+        for seed in range(run.seed * 100 + 70 + i, run.seed * 100 + 70 + i + 1):
             a, b = one(run, g, seed, kind, quick)
             rtraces += a
             ftraces += b
